@@ -1,10 +1,15 @@
 #!/usr/bin/env python3
 """Runs the repository's pinned test suite on a tree (default /repo) and checks that every test of
 BASELINE.json's stable_pass list passes. usage: baseline.py [dir]"""
-import json, os, subprocess, sys
+import json, os, shutil, subprocess, sys, tempfile
 d = sys.argv[1] if len(sys.argv) > 1 else "/repo"
-env = dict(os.environ, GOFLAGS="-mod=mod", GOPROXY="off", GOSUMDB="off", GOTOOLCHAIN="local")
-p = subprocess.run(["go", "test", "-json", "-vet=off", "-count=1", "-timeout", "25m", "./..."], cwd=d, env=env, capture_output=True, text=True)
+# the repository's own tests leave their temporary packages behind: give them a directory that is removed
+tmp = tempfile.mkdtemp(prefix="baseline.")
+env = dict(os.environ, GOFLAGS="-mod=mod", GOPROXY="off", GOSUMDB="off", GOTOOLCHAIN="local", TMPDIR=tmp)
+try:
+  p = subprocess.run(["go", "test", "-json", "-vet=off", "-count=1", "-timeout", "25m", "./..."], cwd=d, env=env, capture_output=True, text=True)
+finally:
+  shutil.rmtree(tmp, ignore_errors=True)
 passed = set()
 for line in p.stdout.splitlines():
     try: ev = json.loads(line)
